@@ -268,6 +268,7 @@ def key_rule(site, I, rep, target_common, assumed_params=()):
             # keys of a filtered comprehension: use its conditions
             ok_all = True
             detail = ""
+            local_unknown = False
             for salt, scs in _alts_cond(src):
                 gg = g + scs
                 if salt.op == "comp" and salt.args[0] == "dict" and salt.args[1].op == "tuple":
@@ -289,6 +290,15 @@ def key_rule(site, I, rep, target_common, assumed_params=()):
                     made = [e for e in I.events if e.kind == "call" and e["recv"] is not None and e["recv"].op == "sub" and e["recv"].args[0] == salt]
                     if made and all(any(differs(list(e.guards), kk[0]) for kk in first_components(e["recv"].args[1], I)) for e in made):
                         continue
+                if salt.op == "alloc" and salt.args[0] == "dict":
+                    # a plain local dict (a gathering table): its keys are those stored / setdefault-ed into it - check every
+                    # such key under its own guards
+                    made = [(e, e["index"]) for e in I.events if e.kind == "store_sub" and e["base"] == salt] + \
+                           [(e, e["args"][0]) for e in I.events if e.kind == "call" and e["method"] in ("setdefault",) and e["recv"] == salt and e["args"]]
+                    if made and all(any(differs(list(e.guards), kk[0]) for kk in first_components(k, I)) for e, k in made):
+                        continue
+                    if made:
+                        local_unknown = True
                 if salt.op == "alloc" and any(e.kind == "call" and e["method"] == "shift_common" and e["recv"] == salt and e["args"] and e.seq < site.ev.seq
                                                and (e["args"][0] == target_common or same_value(e["args"][0], target_common)) for e in I.events):
                     continue  # contract of shift_common(v): the object's common value is v afterwards (category values are never None)
@@ -300,6 +310,9 @@ def key_rule(site, I, rep, target_common, assumed_params=()):
                 detail = "key inherited from %s whose common value is not known to equal %s" % (tm.show(salt)[:40], tm.show(target_common)[:40])
             if ok_all:
                 rep.proved("R-C07-c", where, cons, "key inherited from an index with the same common value (or a caller-supplied partial update, documented precondition)")
+                continue
+            if local_unknown:
+                rep.undecided("R-C07-c", where, cons, "the key comes from a local gathering dict; its keys were not all shown to differ from the new common value where they were stored: %s" % detail)
                 continue
             rep.violated("R-C07-c", where, cons,
                          "on this path the kept coordinate of an inherited key is never compared with the new common value: %s" % detail,
@@ -638,7 +651,7 @@ def main(tier):
     rep.assume("induction hypothesis: entries read from self / other / indexes passed in are well-formed")
     prog = Program()
     ii = prog.cls("iindexes", "iindex")
-    roots = [f for n, f in ii.methods.items() if n not in ("__init__",)] + [prog.func("iindexes", "column_stack"), prog.func("indxio", "IndxIO.load")]
+    roots = [f for n, f in ii.methods.items() if n not in ("__init__",) and not (n.startswith("_") and not n.startswith("__"))] + [prog.func("iindexes", "column_stack"), prog.func("indxio", "IndxIO.load")]  # private helpers are read where they are called (inlined)
     stats = {"sites": 0}
     for fi in roots:
         analyse_root(prog, fi, rep, stats)
@@ -662,7 +675,7 @@ def main(tier):
     st17 = {"events": 0, "mods": 0, "diagnostic": {}, "exceptions": {}, "regions": 0, "shortcuts": 0}
     k17 = 0
     for name17, f17 in ii.methods.items():
-        if name17 == "__init__":
+        if name17 == "__init__" or (name17.startswith("_") and not name17.startswith("__")):
             continue
         c17.analyse_root(prog, f17, "mutator" if name17 in c06.MUTATORS else "pure", rep, st17, RA="R-C07-h", RB="R-C07-h", extra=False)
         k17 += 1
